@@ -300,23 +300,33 @@ def r20_set_backend(ctx):
                 a = ai.apply(ClassRef(cls), [], {'name': 'given.mod', 'api': 'APIQ', 'use_environ': False} if before else {'name': 'given.mod'}, None)
                 holder['given'] = a
             ai.call_function(sb, [], {'name': a} if a is not None else {})
-            return ai.module_globals.get('mido')
+            g_ = ai.module_globals.get('mido')
+            if not isinstance(g_, ADict):
+                return g_
+            snap = ADict()              # what this path leaves in the module namespace (the live dict is reset for the next path)
+            snap.d = dict(g_.d)
+            return snap
         outs = ai.explore(thunk)
         cfg = f'set_backend({label})'
-        if len(outs) != 1 or outs[0].kind != 'return' or not isinstance(outs[0].value, ADict):
+        if not outs or any(o_.kind != 'return' or not isinstance(o_.value, ADict) for o_ in outs):
             ctx.fail('R20.6', cfg, w, f'{outs}', construct=f'{sb.qname}::outcomes')
             continue
-        g = outs[0].value.d
-        b = g.get('backend')
-        ok = isinstance(b, AObj) and b.cls == cls
-        if arg == 'OBJ':
-            ok = ok and b is holder['given']
-        elif arg:
-            ok = ok and b.attrs.get('name') == 'mod' and b.attrs.get('api') == 'APIX'
-        ctx.require(ok, 'R20.6', f'{cfg}.backend', w, f'mido.backend is {b!r}', construct=f'{sb.qname}::backend')
-        names = ['open_input', 'open_output', 'open_ioport', 'get_input_names', 'get_output_names', 'get_ioport_names']
-        bad = [nm for nm in names if not (isinstance(g.get(nm), tuple) and g[nm][0] == 'bound' and g[nm][1] is b and g[nm][2].name == nm)]
-        ctx.require(not bad, 'R20.6', f'{cfg}.rebinding', w, f'top level functions not rebound to the chosen backend: {bad}', construct=f'{sb.qname}::rebinding')
+        # (several outcomes: a test the analysis cannot decide, such as a comparison with the backend in force through an
+        # __eq__ of its own - whichever way it goes, the chosen backend must be installed and the functions rebound to it)
+        for o_ in outs:
+            g = o_.value.d
+            b = g.get('backend')
+            how = (' (when ' + ', '.join(d[2] for d in o_.decisions) + ')') if o_.decisions and len(outs) > 1 else ''
+            ok = isinstance(b, AObj) and b.cls == cls
+            if arg == 'OBJ':
+                ok = ok and b is holder['given']
+            elif arg:
+                ok = ok and b.attrs.get('name') == 'mod' and b.attrs.get('api') == 'APIX'
+            ctx.require(ok, 'R20.6', f'{cfg}.backend', w, f'mido.backend is {b!r}{how}' + (' - not the Backend object that was passed in' if arg == 'OBJ' else ''),
+                        construct=f'{sb.qname}::backend')
+            names = ['open_input', 'open_output', 'open_ioport', 'get_input_names', 'get_output_names', 'get_ioport_names']
+            bad = [nm for nm in names if not (isinstance(g.get(nm), tuple) and g[nm][0] == 'bound' and g[nm][1] is b and g[nm][2].name == nm)]
+            ctx.require(not bad, 'R20.6', f'{cfg}.rebinding', w, f'top level functions not rebound to the chosen backend{how}: {bad}', construct=f'{sb.qname}::rebinding')
         ctx.require(ai.state['imports'] == [], 'R20.1', f'{cfg}.lazy', w, f'set_backend imports {ai.state["imports"]} although load=False',
                     construct=f'{sb.qname}::lazy')
     # load=True: the backend is made from the name as with load=False - name and API as given - and its module is imported
